@@ -331,6 +331,9 @@ func mapReduceWithPanicChan[T, U, V any](source <-chan T, panicChan *onceChan, m
 			err = e
 		} else if ok {
 			val = v
+		} else if options.ctx.Err() != nil {
+			// the reducer's output was discarded because the context is done
+			err = context.DeadlineExceeded
 		} else {
 			err = ErrReduceNoOutput
 		}
